@@ -280,6 +280,11 @@ def setup_case(case, workdir, seed):
                                                                               "key_mgr": metadata.rule([ctx["pub"]], 1)}, r)}
         if r.random() < 0.5:
             md["signatures"]["ab" * 32] = {"other_headers": "04", "signature": "cd" * 64}
+        if r.random() < 0.4:
+            # re-signing after an edit: an entry by the SAME key is already there, made over the previous content
+            prev = dict(md["signed"], version=md["signed"]["version"] + 1) if r.random() < 0.5 else {"previous": "content"}
+            md["signatures"][ctx["pub"]] = {"other_headers": crypto.DEFAULT_HDR.hex(),
+                                            "signature": crypto.gpg_sign(key_seed, twin_canon(prev), crypto.DEFAULT_HDR).hex()}
         if inp == "not_signable":
             md = r.choice([{"signed": md["signed"]}, {"signatures": [], "signed": md["signed"]}, [md], {**md, "extra": 1}])
         ctx["doc"] = md
